@@ -46,6 +46,7 @@ unsigned mc_blocks (void);
 unsigned mc_blocks_of (int fiber);
 unsigned mc_sleeps_of (int fiber);   /* semaphore / futex sleeps only, same arming */
 void *mc_tls_waiter_of (int fiber);  /* the fiber's per-thread waiter record (NULL if it has none yet) */
+extern void (*mc_tls_listener) (int fiber, void *w);   /* called when a fiber adopts a per-thread waiter record */
 
 /* Thread exit followed by the start of a fresh thread on the same fiber: runs
    the per-thread-waiter destructor as a pthread key destructor would.  */
